@@ -241,6 +241,31 @@ func Run(run *core.Run, thorough bool) {
 			c.checkOne(r, uint64(giant[i]), seeds[0], sha256.Sum256, "real-hash/mainnet-scale")
 		}
 	})
+	// (1c) the per-index functions on lists that cannot be materialised (positions beyond 2^32 and 2^40): a grid of
+	// indices per size, against the per-index specification function
+	for _, n := range []uint64{1<<32 - 1, 1 << 32, 1<<32 + 5, 1 << 33, 1<<40 + 1, 1 << 63} {
+		for _, r := range []int{1, 2, 10} {
+			for _, sd := range seeds[:2] {
+				atomic.AddInt64(&c.evals, 1)
+				atomic.AddInt64(&c.nontriv, 1)
+				for _, i := range []uint64{0, 1, 255, 256, 1<<32 - 1, 1 << 32, 1<<32 + 1, n / 2, n / 3, n - 2, n - 1} {
+					if i >= n {
+						continue
+					}
+					want := refShuffledIndex(sha256.Sum256, i, n, sd, r)
+					got := uint64(common.PermuteIndex(uint8(r), common.ValidatorIndex(i), n, sd))
+					if got != want {
+						run.Report("C06/PermuteIndex", fmt.Sprintf("real-hash/huge-list rounds=%d n=%d seed=%x: PermuteIndex(%d) = %d, spec shuffled index is %d", r, n, sd, i, got, want), map[string]interface{}{"engine": "enumx", "rounds": r, "n": n})
+						break
+					}
+					if back := uint64(common.UnpermuteIndex(uint8(r), common.ValidatorIndex(want), n, sd)); back != i {
+						run.Report("C06/UnpermuteIndex", fmt.Sprintf("real-hash/huge-list rounds=%d n=%d seed=%x: UnpermuteIndex(%d) = %d, expected %d", r, n, sd, want, back, i), map[string]interface{}{"engine": "enumx", "rounds": r, "n": n})
+						break
+					}
+				}
+			}
+		}
+	}
 	realEvals := c.evals
 	// (2a) owned hash, full enumeration: every pivot x every position-bit pattern
 	full1 := 10 // one round: sizes 1..full1
